@@ -171,6 +171,7 @@ func linearAttempt(c *Ctx) {
 	step := int64(1)
 	// limitOK: the value is count - 1 as fixed by LinearAttempt before the goroutine starts
 	gos0 := an.AllInstrs(fn, func(in ssa.Instruction) bool { _, ok := in.(*ssa.Go); return ok })
+	startOff := int64(0) // the counter's start value: the bound is count - 1 + start (i from 0 to count-1, or sent from 1 to count)
 	limitOK := func(v ssa.Value) bool {
 		srcs := P.Sources(v)
 		if _, isL := isLoad(v); isL {
@@ -197,12 +198,24 @@ func linearAttempt(c *Ctx) {
 							}
 						}
 					}
-					if okc && dec {
+					if okc && dec && startOff == 0 {
 						continue
+					}
+					if startOff == 1 && okc && !dec && len(fn.Params) >= 3 {
+						// counting from 1 (the inline value) up to the caller's count, which nobody modifies
+						only := true
+						for _, st := range P.CellStores(cell) {
+							if st.Val != ssa.Value(fn.Params[2]) {
+								only = false
+							}
+						}
+						if only && cell == cellOfParam(fn, fn.Params[2]) {
+							continue
+						}
 					}
 					// the variable is assigned what a helper computed: every assignment other than the parameter's own
 					// spill is, as seen from the go statement, count - 1
-					if okc && len(gos0) == 1 && len(fn.Params) >= 3 {
+					if okc && startOff == 0 && len(gos0) == 1 && len(fn.Params) >= 3 {
 						all, n := true, 0
 						for _, st := range P.CellStores(cell) {
 							if st.Val == ssa.Value(fn.Params[2]) {
@@ -223,7 +236,7 @@ func linearAttempt(c *Ctx) {
 				return false
 			}
 			// a plain value of LinearAttempt: count - 1
-			if valueParent(sv) != fn || len(fn.Params) < 3 || !P.Lin(sv).Equal(aP(fn.Params[2].Name()).AddC(-1)) {
+			if valueParent(sv) != fn || len(fn.Params) < 3 || !P.Lin(sv).Equal(aP(fn.Params[2].Name()).AddC(-1+startOff)) {
 				return false
 			}
 		}
@@ -261,6 +274,12 @@ func linearAttempt(c *Ctx) {
 			lim := false
 			if op == token.LSS {
 				cnt = ph.(*ssa.Phi)
+				for i, e := range cnt.Edges {
+					pred := cnt.Block().Preds[i]
+					if k, isK := constInt(e); isK && k == 1 && !cnt.Block().Dominates(pred) {
+						startOff = 1
+					}
+				}
 				lim = cont && limitOK(limit)
 			} else if isZero(limit) {
 				cnt = ph.(*ssa.Phi)
@@ -291,7 +310,7 @@ func linearAttempt(c *Ctx) {
 		for i, e := range cnt.Edges {
 			pred := cnt.Block().Preds[i]
 			switch {
-			case step == 1 && isZero(e) && !P.InCycle(pred.Instrs[len(pred.Instrs)-1]):
+			case step == 1 && (isZero(e) || isConstK(e, startOff)) && !P.InCycle(pred.Instrs[len(pred.Instrs)-1]):
 			case step == -1 && !cnt.Block().Dominates(pred):
 				// the start of the countdown (judged above)
 			case e == ssa.Value(cnt):
@@ -595,4 +614,9 @@ func init() {
 			floorRule("ATOM", "ATOM", 3),
 		},
 	})
+}
+
+func isConstK(v ssa.Value, k int64) bool {
+	c, ok := constInt(v)
+	return ok && c == k
 }
